@@ -430,6 +430,7 @@ def r7(F, rep):
     g = F.one(PROPS)
     res = X.const_locals(g)
     reads = set()
+    partner = {}
     for m in g.walk():
         if m["k"] != "MemberExpr" or m.get("dk") != "Field" or not X.key(m, g).startswith("this.") or X.key(m, g).count(".") != 1:
             continue
@@ -443,6 +444,12 @@ def r7(F, rep):
             if par is not None and par["k"] in ("BinaryOperator", "CXXOperatorCallExpr") and par.get("op") == "=" and X.strip((X.kids(par) if par["k"] == "BinaryOperator" else X.call_args(par))[0]) is m:
                 continue
             reads.add(nm)
+            # the member it is compared with: the other plain member passed to the same call
+            if par is not None and par["k"] in ("CallExpr", "CXXMemberCallExpr"):
+                for a in X.call_args(par):
+                    ka = X.key(a, g)
+                    if X.strip(a) is not m and ka.startswith("this.") and ka.count(".") == 1:
+                        partner.setdefault(nm, set()).add(X.re_strip(ka))
     if not reads:
         raise AnalysisBroken("C17-R7: the repeated-step branch reads no member besides the saved copies (x_old expected)")
     e = F.one("colvar::end_of_step")
@@ -459,6 +466,20 @@ def r7(F, rep):
         rep.add("C17-R7", "end_of_step|%s" % nm, e.loc(ws[0]) if ws else e.loc(), "`%s` (read by the repeated-step branch) %s" % (
             nm, "is refreshed at the end of every step" if ok else why), ok,
             detail="with a stale value the repeated step is taken for a discrete jump (or the reverse) and the coordinate is re-initialised instead of reverted", func=e.q)
+        for k2 in sorted(partner.get(nm, ())):
+            eres = X.const_locals(e)
+            srcs = []
+            for w in ws:
+                if w["k"] == "BinaryOperator" and w.get("op") == "=":
+                    srcs.append(X.re_strip(X.key(X.kids(w)[1], e, eres)))
+                elif w["k"] == "CXXOperatorCallExpr" and w.get("op") == "=":
+                    srcs.append(X.re_strip(X.key(X.call_args(w)[1], e, eres)))
+            bad = [x for x in srcs if x != k2]
+            rep.add("C17-R7", "end_of_step|%s|source" % nm, e.loc(ws[0]) if ws else e.loc(),
+                    "the repeated-step branch compares `%s` with `%s`; end_of_step() assigns it from %s" % (nm, k2, sorted(set(srcs)) or "nothing"),
+                    bool(srcs) and not bad,
+                    detail="the jump test then measures the distance between two different quantities of the previous step "
+                           "(with an extended coordinate: the stretch of the coupling spring), and a repeated step is taken for a jump", func=e.q)
 
 
 def run(F, rep, tier):
